@@ -27,7 +27,8 @@ RULE = ('histories of Index calls (assignment, lookup, get, deletion, pop, popit
 DISTINCT = ('cells', 'schedules')
 REQUIRED = ('calls_judged', 'file_backed_values', 'reopen_events', 'pickle_events', 'fanout_indexes', 'django_indexes',
             'presence_schedules', 'presence_lookups', 'atomicity_schedules', 'free_runs', 'exceptions_matched',
-            'lookups_overlapping_replacement', 'replacements_run_in_front_of_a_file_open')
+            'lookups_overlapping_replacement', 'replacements_run_in_front_of_a_file_open',
+            'updates_from_failing_iterables')
 ASSUMPTIONS = ('bool and NaN keys are not generated (OrderedDict unifies True with 1, the cache by design does not)',)
 
 T = 64
@@ -135,9 +136,23 @@ def history(dc, sc, res, rng, label):
                 args = (m,)
                 got, exp = outcome(lambda: I.update(m)), outcome(lambda: R.update(m))
             elif op == 'update_pairs':
-                m = [(gen.pick(rng, keys), val()) for _ in range(rng.randrange(0, 3))]
+                m = [(gen.pick(rng, keys), val()) for _ in range(rng.randrange(0, 4))]
                 args = (m,)
-                got, exp = outcome(lambda: I.update(m)), outcome(lambda: R.update(m))
+                if rng.random() < 0.3:
+                    # the iterable of pairs fails part-way: the pairs consumed so far stay, the exception passes on
+                    stop = rng.randrange(0, len(m) + 1)
+                    args = (m, 'iterable raises after %d pair(s)' % stop)
+
+                    def pairs():
+                        for j, kv in enumerate(m):
+                            if j == stop:
+                                raise ValueError('iterable failed')
+                            yield kv
+                        raise ValueError('iterable failed')
+                    res.count('updates_from_failing_iterables')
+                    got, exp = outcome(lambda: I.update(pairs())), outcome(lambda: R.update(pairs()))
+                else:
+                    got, exp = outcome(lambda: I.update(m)), outcome(lambda: R.update(m))
             elif op == 'update_kw':
                 m = {gen.pick(rng, ['a', 'b', 'kw']): val()}
                 args = (m,)
